@@ -22,6 +22,10 @@ Tie to /repo on every run:
      3-D, every run) for ldot ildot rdot irdot, scalar multiples, sums and products: exact tier through the real
      embedding of complex numbers (re/im stacked, block matrices) against the same Coq model operations, float tier
      against np.dot(c, T(u)) and the definition-level series;
+ (V) value semantics (the model's operations return fresh values): the result of every non-in-place operation shares
+     no memory with an operand and mutating it leaves the operands bit-identical; histories: a query repeated on one
+     object after an in-place modification equals the query on a fresh copy (keys c16-result-aliases-operand,
+     c16-history-*);
  (G) argument guard: every call into the library made by (X) and (F) (powexp, __call__, arithmetic, ldot/rdot,
      slices, reduce..., constructexpansion) must leave its arguments (evaluation point, operands, matrices)
      bit-identical to a snapshot taken before the call (key c16-input-mutated).
@@ -668,6 +672,56 @@ def float_tier(ck, Ts):
     ck.extra["float_worst_rel_err"] = worst
 
 
+def semantics_tier(ck, Ts):
+    """value semantics of the model (every operation returns a fresh value) against the implementation's objects:
+    (i) the result of every NON in-place operation -- binary and reflected dunder operations, 0 + T / sum(), unary +/-, copy,
+    scalar multiples, products, ldot/rdot, truncate, the coefficient-list class methods, copies of slices -- is a new object sharing
+    no memory with an operand, and modifying it in place leaves the operands bit-identical (slices T[key] themselves are
+    documented views, nodeepcopy=True, and are the only exception); (ii) histories: a query repeated on one object after an
+    in-place modification (+=, -=, T[i,j] = S, T[i:j,i:j] += dV, in-place scalar product, direct array edit, ildot, irdot) equals
+    the query on a fresh copy of the modified object (nothing stale is remembered)."""
+    rng = ck.rng; nr = ck.nprng(18)
+    k = 2
+    for it in range(ck.n(10, 120)):
+        d = 3 if it % 2 == 0 else 2; T = Ts[d]
+        cplx = it % 3 != 2
+        a = rand_float_expansion(nr, d, (k, k), tc.rand_nl(rng, -1, 4, 2, rng.randint(1, 3), distinct_n=True), cplx)
+        b = rand_float_expansion(nr, d, (k, k), tc.rand_nl(rng, -1, 4, 2, rng.randint(1, 3), distinct_n=True), cplx)
+        ta, tb = T(a), T(b)
+        C = nr.normal(size=(k, k)); N = rng.randint(0, 3); sc = nr.normal()
+        raw = lambda cl: T(cl, nodeepcopy=True)          # class methods return bare coefficient lists: wrap without copying
+        ops = [("a+b", lambda: ta + tb), ("a-b", lambda: ta - tb), ("0+a (__radd__)", lambda: 0 + ta), ("sum([a])", lambda: sum([ta])),
+               ("sum([a,b])", lambda: sum([ta, tb])), ("a+ndarray", lambda: ta + np.eye(k)), ("a-ndarray", lambda: ta - np.eye(k)),
+               ("+a", lambda: +ta), ("-a", lambda: -ta), ("a.copy()", lambda: ta.copy()), ("k*a (__rmul__)", lambda: sc * ta), ("a*k", lambda: ta * sc),
+               ("a*b", lambda: ta * tb), ("a.ldot(C)", lambda: ta.ldot(C)), ("a.rdot(C)", lambda: ta.rdot(C)), ("a.truncate(N)", lambda: ta.truncate(N)),
+               ("a.truncate(99)", lambda: ta.truncate(99)), ("a[0:1,:].copy()", lambda: ta[0:1, :].copy()), ("T(a.coefflist)", lambda: T(ta.coefflist)),
+               ("sumcoeff(a,b)", lambda: raw(T.sumcoeff(ta, tb))), ("sumcoeff(a,[])", lambda: raw(T.sumcoeff(ta, []))), ("sumcoeff([],b)", lambda: raw(T.sumcoeff([], tb))),
+               ("negcoeff(a)", lambda: raw(T.negcoeff(ta))), ("scalarproductcoeff(1,a)", lambda: raw(T.scalarproductcoeff(1, ta))),
+               ("tensorproductcoeff(C,a)", lambda: raw(T.tensorproductcoeff(C, ta))), ("coeffproductcoeff(a,b)", lambda: raw(T.coeffproductcoeff(ta, tb))),
+               ("truncatecoeff(a,N)", lambda: raw(T.truncatecoeff(ta, N))), ("reducecoeff(a)", lambda: raw(T.reducecoeff(ta))),
+               ("collectcoeff(a)", lambda: raw(T.collectcoeff(ta))), ("separatecoeff(a)", lambda: raw(T.separatecoeff(ta)))]
+        for label, f in ops:
+            try:
+                res = f()
+            except (ArithmeticError, ValueError, TypeError, IndexError) as e:
+                ck.violation("implementation raised %s: %s in %s" % (type(e).__name__, e, label), {"op": label, "dim": d}, key="c16-exception-semantics")
+                continue
+            tc.alias_case(ck, "c16", "%s[%dD]" % (label, d), res, {"a": ta, "b": tb}, T, nr, rng)
+        # histories on one object
+        u = nr.normal(size=d) * 1.3
+        queries = [("__call__", lambda t: np.asarray(tc.impl_value(t, u))), ("copy", lambda t: t.copy()), ("truncate", lambda t: t.truncate(N)),
+                   ("ldot", lambda t: t.ldot(C)), ("mul", lambda t: t * tb), ("neg", lambda t: -t), ("radd0", lambda t: 0 + t),
+                   ("reducecoeff", lambda t: T(T.reducecoeff(t)))]
+        for qi, (qname, q) in enumerate(queries):
+            route = tc.ROUTES[(it + qi) % len(tc.ROUTES)]
+            t = T([(n, l, c.astype(complex)) for n, l, c in a])
+            try:
+                tc.history_case(ck, "c16", qname, q, t, route, T, nr, rng)
+            except (ArithmeticError, ValueError, TypeError, IndexError) as e:
+                ck.violation("implementation raised %s: %s in history %s / %s" % (type(e).__name__, e, qname, route),
+                             {"query": qname, "route": route, "dim": d}, key="c16-exception-semantics")
+
+
 def overflow_demo(ck, Ts):
     """replay of the witness of C16_product_order_hypothesis_needed on the implementation (a note: the property
     excludes it)"""
@@ -698,5 +752,6 @@ def run(ck):
         ck.broken_proof = "correspondence Model/Taylor (tables): %s" % e
     exact_tier(ck, Ts)
     float_tier(ck, Ts)
+    semantics_tier(ck, Ts)
     overflow_demo(ck, Ts)
     tc.flush_guard(ck, "c16")
